@@ -561,6 +561,8 @@ def outliers(ctx):
                 continue
             if x.op == "call" and (func_name(x) or "").endswith("reject_outliers"):
                 continue
+            if x.op == "iter":
+                continue            # a loop counter over range(len(filtered)): counts the kept rows, selects nothing
             stack.extend(a_ for a_ in x.args if hasattr(a_, "op"))
         return out
 
